@@ -200,8 +200,8 @@ def _template(v, names) -> str:
             out.append("{" + names[p.key()] + "}")
         elif isinstance(p, EnumMemV) and p.enum == "MessageType" and len(p.names) == 1:
             out.append("{" + p.names[0] + "}")
-        elif isinstance(p, Const) and isinstance(p.value, int):
-            out.append(str(p.value))
+        elif isinstance(p, Const) and isinstance(p.value, (int, str)) and not isinstance(p.value, bool):
+            out.append(str(p.value))  # a constant formatted into the topic is literal text
         else:
             out.append("{?" + repr(p.key())[:60] + "}")
     return "".join(out)
